@@ -30,7 +30,7 @@ META = {
                    'enumerated (pairs sampled), and for threaded programs every single line-level pre-emption placement '
                    '(capped) plus seeded random schedules; the oracle is an undecorated twin with object-identity and '
                    'exactly-once journals.  Programs themselves are sampled, so this is enumeration of fault/schedule '
-                   'placements over sampled workloads, not a proof. Also: two placed pre-emptions (bound 2) over eagerly started fire-and-forget workers, DEBUG logging switched on, recording switched off from inside an intercepted body, and unusual call shapes (no arguments, keywords only, unhashable first arguments or classes) with recording disabled.'),
+                   'placements over sampled workloads, not a proof. Also: two placed pre-emptions (bound 2) over eagerly started fire-and-forget workers, DEBUG logging switched on, recording switched off from inside an intercepted body, and unusual call shapes (no arguments, keywords only, unhashable first arguments or classes) with recording disabled. A decorated operation invoked while another operation of the same recorder is being recorded (nested, concurrent): known finding F1.'),
     'level_note': ('Trusted: the generated-service interpreter and environment journal (engines/recplay.py), the baton '
                    'scheduler (simkit/sim.py, determinism self-tested), CPython line-event semantics. Assumes no nested or '
                    'concurrent operations on one recorder; line granularity of pre-emption.'),
@@ -55,7 +55,7 @@ META = {
     'components_stub': ['thread scheduling (baton-passing scheduler, sys.settrace line pre-emption)',
                         'the recorded service (generated program) and its environment', 'cassette save failure (spy)'],
     'budgets': {'quick': {'seconds': 40}, 'thorough': {'seconds': 600}},
-    'required_probes': {'thorough': ['threaded_program', 'straggler_in_flight_at_finalise', 'discard_while_in_flight',
+    'required_probes': {'quick': ['operation_invoked_while_another_is_being_recorded'], 'thorough': ['operation_invoked_while_another_is_being_recorded', 'two_placed_preemptions', 'threaded_program', 'straggler_in_flight_at_finalise', 'discard_while_in_flight',
                                      'pair_of_faults']},
 }
 
@@ -116,10 +116,72 @@ def run_tape(tape):
             return _run_tape(tape, stack)
 
 
+def overlapping_operations(tape):
+    """A decorated operation is invoked while another operation of the same recorder is being recorded: called from inside
+    it (nested), or on another thread of the service (concurrent requests).  Callers must see what the undecorated code does."""
+    from playback.tape_cassettes.in_memory.in_memory_tape_cassette import InMemoryTapeCassette as _Mem
+    run = Run(PROP)
+    variant = tape.choice(['nested', 'concurrent'])
+    run.probe('operation_invoked_while_another_is_being_recorded')
+    run.nontrivial = True
+    spy = R.SpyCassette(_Mem(), run)
+    recorder = TapeRecorder(spy)
+    recorder.enable_recording()
+    sim = Sim(tape, run, preempt_p=0.0, prim_p=0.0, trace_lines=False, max_steps=20000)
+
+    class Inner(object):
+        @recorder.operation()
+        def execute(self, x):
+            return ('inner', self.read(x))
+
+        @recorder.intercept_input('read')
+        def read(self, x):
+            if variant == 'concurrent':
+                sim.sleep(0.01)          # the request takes a moment: the other request starts meanwhile
+            return x * 10
+
+    class Outer(object):
+        @recorder.operation()
+        def execute(self, x):
+            return ('outer', Inner().execute(x))
+    R.D.register('Inner', Inner)
+    R.D.register('Outer', Outer)
+    outcomes = {}
+
+    def main():
+        if variant == 'nested':
+            outcomes['outer'] = R.call_outcome(lambda: Outer().execute(2))
+        else:
+            tasks = [sim.spawn(lambda k=k: outcomes.__setitem__('request%d' % k, R.call_outcome(lambda: Inner().execute(k))), name='request%d' % k) for k in (1, 2)]
+            for t in tasks:
+                sim.join(t)
+    try:
+        sim.run_main(main)
+    except SimDeadlock as ex:
+        run.violate('no_deadlock', 'deadlock', str(ex))
+        return run
+    expected = {'outer': ('outer', ('inner', 20))} if variant == 'nested' else {'request1': ('inner', 10), 'request2': ('inner', 20)}
+    run.say('%s operations on one recorder: %s' % (variant, sorted((k, repr(v)) for k, v in outcomes.items())))
+    run.ev('overlap', variant, sorted((k, v.kind) for k, v in outcomes.items()))
+    for name in sorted(expected):
+        out = outcomes.get(name)
+        if out is None or out.kind != 'return':
+            ex = out.exc if out is not None else None
+            origin = R.origin_note(ex) if ex is not None else ('none', 'none', '')
+            run.violate('call_result_identity', 'operation-while-another-is-recorded:%s:%s@%s' % (variant, origin[0], origin[1]),
+                        '%s: %s raised %r into its caller; the undecorated code returns %r' % (variant, name, ex, expected[name]))
+        else:
+            run.check(out.value == expected[name], 'same_behaviour_as_twin', 'operation-result-differs',
+                      lambda: '%s: %s returned %r, the undecorated code returns %r' % (variant, name, out.value, expected[name]))
+    return run
+
+
 def _run_tape(tape, stack):
     run = Run(PROP)
     # ---- configuration draws, fixed order (systematic placement overrides them through the tape prefix)
-    nfaults = tape.draw(3)
+    nfaults = tape.draw(4)
+    if nfaults == 3:
+        return overlapping_operations(tape)
     f = [(tape.draw(4096), tape.draw(64)), (tape.draw(4096), tape.draw(64))]
     threaded = tape.draw(3) == 2
     preempt_class = tape.draw(4)
@@ -335,6 +397,10 @@ def run_index(i, seed, tier, emit):
     """One generated program: fault-free, every single fault placement, single pre-emption placements, random."""
     import sys
     mod = sys.modules[__name__]
+    if i % 16 == 0:
+        for variant in (0, 1):          # nested / concurrent operations on one recorder
+            t = Tape(seed, prefix=[3, variant])
+            emit(safe_run_tape(mod, t), t)
     t = Tape(seed, prefix=[0, 0, 0, 0, 0])
     dry = safe_run_tape(mod, t)
     emit(dry, t)
